@@ -33,7 +33,7 @@ def collect(only):
         mp = os.path.join(d, 'meta.json'); pp = os.path.join(d, 'patch.diff')
         if os.path.exists(mp) and os.path.exists(pp):
             m = json.load(open(mp))
-            items.append({'id': 'seeded/' + os.path.basename(d), 'patch': pp, 'property': m['property'], 'configs': m.get('check_configs'), 'runs': m.get('check_runs')})
+            items.append({'id': 'seeded/' + os.path.basename(d), 'patch': pp, 'property': m.get('check_property') or m['property'], 'seeded_for': m['property'], 'configs': m.get('check_configs'), 'runs': m.get('check_runs')})
     if only:
         items = [i for i in items if only in i['id']]
     return items
@@ -62,7 +62,7 @@ def run_one(item, tier, repo='/repo'):
             if l.startswith('VIOLATION property=' + item['property']) and i + 1 < len(lines):
                 first = lines[i + 1].strip()[:300]; break
         status = 'CAUGHT' if (r.returncode == 1 and viol) else ('HARNESS-PROBLEM' if r.returncode == 2 else 'MISSED')
-        return {'id': item['id'], 'property': item['property'], 'status': status, 'rc': r.returncode, 'violations': len(viol), 'first': first,
+        return {'id': item['id'], 'property': item['property'], 'seeded_for': item.get('seeded_for', item['property']), 'status': status, 'rc': r.returncode, 'violations': len(viol), 'first': first,
                 'wall_s': round(time.time() - t0, 1), 'tail': '' if status == 'CAUGHT' else r.stdout[-1500:]}
     finally:
         import hashlib
